@@ -1,5 +1,6 @@
 #!/usr/bin/env python3
-"""Seeded-change runner.
+"""Seeded-change runner.  (VERIF_REPO=<git checkout> runs everything against that tree instead of /repo:
+used with `vp run --with-repo` so that a seeded run never disturbs other work on /repo.)
 
   seeded.py confirm <dir>        confirm a candidate change (patch.diff + demo.sh) in a scratch worktree:
                                  applies, builds, project tests pass, demo exits 1 patched / 0 clean
@@ -21,7 +22,7 @@ import time
 
 HERE = os.path.dirname(os.path.abspath(__file__))
 VERIF = os.path.dirname(HERE)
-REPO = "/repo"
+REPO = os.environ.get("VERIF_REPO", "/repo")
 SEEDED = os.path.join(VERIF, "seeded")
 
 
